@@ -202,6 +202,11 @@ def stub_term(p):
     return f"(mkStub {coq.s(p['key'])} {kind} {coq.s(p['path'])} {coq.s(p['ser'])} {coq.s(p['deser'])})"
 
 
+def hb(b64text):
+    """short stable name of a payload: the model only compares payloads for equality"""
+    return env.canon_hash(b64text) if b64text else ""
+
+
 # ---------------------------------------------------------------------------------------------- one API
 def scrub(msg):
     """drop google.protobuf.Value & co. (their dict spelling means something else to proto-plus) — recursively"""
@@ -250,6 +255,10 @@ class ApiRun:
 
     def meth(self, i, j):
         return f"(nth_m {self.sname(i)} {j})"
+
+    def live(self, i, j):
+        """the method whose body runs when the client method named like method j is called (last definition wins)"""
+        return f"(live_meth {self.sname(i)} {coq.s(self.client_method_name(i, j))})"
 
     # -- schema-level T2 against gapic's wrappers
     def check_facts(self):
@@ -359,11 +368,11 @@ class ApiRun:
                     okind = "OOperation" if any("from_gapic" in w for w in wr) else "OPager" if any("Pager" in w for w in wr) else \
                         ("OPlain" if c["assigned"] else "ONone")
                     self.checks.append((f"T1 {self.tag}.{m.name} {variant}: rpc call (argument, await, assignment, return) and wrapper = model",
-                                        f"{coq.b(ok_syntax)} && match {self.meth(i, j)} with Some m => call_eqb (call_of {variant} m) "
+                                        f"{coq.b(ok_syntax)} && match {self.live(i, j)} with Some m => call_eqb (call_of {variant} m) "
                                         f"(mkCall {coq.s(c['args'][0] if c['args'] else '')} {coq.b(c['awaited'])} {coq.b(c['assigned'])} {coq.b(ir['returns_stmt'] == 'response')}) "
                                         f"&& out_kind_eqb (client_output m) {okind} | None => false end"))
                     # the class the client coerces to is the class whose serializer the stub uses
-                    gp = next((p for p in clients.get(i, {}).get("transports/grpc.py", []) if p["key"] == lk["key"]), None)
+                    gp = next((p for p in reversed(clients.get(i, {}).get("transports/grpc.py", [])) if p["key"] == lk["key"]), None)
                     if gp and ir.get("request_class"):
                         self.checks.append((f"T1 {self.tag}.{m.name} {variant}: coerced class = class of the stub's request serializer",
                                             coq.b(gp["ser_cls"] == ir["request_class"])))
@@ -390,15 +399,15 @@ class ApiRun:
         calls, meta = [], {}
         for i, (fp, s) in enumerate(self.svcs):
             for j, m in enumerate(s.method):
-                if m.output_type == OPERATION or is_paged(self.idx, m):
-                    consume_ok = False
+                if m.output_type == OPERATION or is_paged(self.idx, m) or sum(1 for x in s.method if U.snake(x.name) == U.snake(m.name)) > 1:
+                    consume_ok = False      # operations / pagers wrap the reply; a shadowed method's reply type is another RPC's
                 else:
                     consume_ok = True
                 rq, rs = m.input_type[1:], m.output_type[1:]
                 cname = self.client_method_name(i, j)
                 for variant, client, tr in (("Sync", s.name + "Client", "grpc"), ("Async", s.name + "AsyncClient", "grpc_asyncio")):
                     base = {"service_module": U.snake(s.name), "client": client, "transport": tr, "method": cname,
-                            "consume": "stream" if m.server_streaming else "value"}
+                            "consume": "ignore" if not consume_ok else "stream" if m.server_streaming else "value"}
                     nrep = r.randint(0, 3) if m.server_streaming else 1
                     replies = [scrub(self.dyn.random(r, rs, fill=0.6)) for _ in range(nrep)]
                     if m.client_streaming:
@@ -437,8 +446,8 @@ class ApiRun:
                     continue
                 for variant, client, tr in (("Sync", s.name + "Client", "grpc"), ("Async", s.name + "AsyncClient", "grpc_asyncio")):
                     cid = f"{i}/x/{variant}/{mname}"
-                    rm = self.dyn.new(fq)
-                    rm.resource = "projects/p/things/t"
+                    from google.iam.v1 import iam_policy_pb2
+                    rm = getattr(iam_policy_pb2, fq.rsplit(".", 1)[1])(resource="projects/p/things/t")
                     calls.append({"id": cid, "service_module": U.snake(s.name), "client": client, "transport": tr, "method": mname,
                                   "request": {"mode": "message", "cls": cls, "b64": U.b64(rm)}, "replies": [""]})
                     meta[cid] = (i, mname, variant, "legacy_iam", [rm], None, False, path, fq)
@@ -465,7 +474,7 @@ class ApiRun:
             i, j, variant, sp, sent, replies, consume_ok = mt
             fp, s = self.svcs[i]
             m = s.method[j]
-            sv, me = self.sname(i), self.meth(i, j)
+            sv, me = self.sname(i), self.live(i, j)
             want_path = f"/{fp.package}.{s.name}/{m.name}"
             case = dict(self.case, service=s.name, method=m.name, variant=variant, spelling=sp,
                         requests_b64=[U.b64(x) for x in sent], replies_b64=[U.b64(x) for x in replies])
@@ -483,15 +492,17 @@ class ApiRun:
                 ctx.violation(f"emitted package does not import: {o['error']['exception']}: {o['error']['message'][:200]}", case, "stubs.import_error")
                 return
             known = None
+            if sum(1 for x in s.method if U.snake(x.name) == U.snake(m.name)) > 1:
+                known = "stubs.rpc_names_equal_after_snake_case"      # DESIGN section 9 no. 11
             flat = U.Index.signatures(m)
-            if variant == "Async" and self.idx.package_of(m.input_type) != fp.package and any("." in p for sg in flat for p in sg.split(",")):
+            if known is None and variant == "Async" and self.idx.package_of(m.input_type) != fp.package and any("." in p for sg in flat for p in sg.split(",")):
                 known = "flatten.async_cross_pkg_dotted_ctor"     # reported under C05
             # ---- observed, in model terms
             npath = o["calls"][0]["path"] if len(o["calls"]) == 1 else None
             nreq = len(o["calls"][0]["requests"]) if len(o["calls"]) == 1 else -1
-            res_term = self.result_term(o)
+            res_term = self.result_term(o, m.output_type)
             cm = f"(mkCM {coq.s(self.client_method_name(i, j))} Table {coq.s(self.facts['services'][s.name]['methods'][j]['safe_snake'])})"
-            reps = coq.slist([U.b64(x) for x in replies])
+            reps = coq.slist([hb(U.b64(x)) for x in replies])
             n_given = len(sent) if m.client_streaming else 1
             if o["ok"] and npath is not None and res_term is not None:
                 expr = (f"match dispatch {variant} {sv} {cm}, {me} with Some st, Some m => String.eqb (st_path st) {coq.s(npath)} && "
@@ -507,7 +518,7 @@ class ApiRun:
                 got = self.dyn.parse("." + m.input_type[1:], o["calls"][0]["requests"][0]) if nreq == 1 else None
                 if got is not None:
                     def opaque(x):
-                        b = U.b64(x)
+                        b = hb(U.b64(x))
                         return f"(mkReq {coq.lst([f'({coq.s(chr(42))}, LM {coq.s(b)})'] if b else [])} [])"
                     ra = {"message": f"(RMsg {opaque(sent[0])})", "dict": f"(RDict {opaque(sent[0])})", "none": "RNone",
                           "empty_dict": f"(RDict {opaque(sent[0])})"}[sp]
@@ -535,6 +546,9 @@ class ApiRun:
                 continue
             if not consume_ok:
                 continue
+            if o.get("extra_await"):
+                ctx.violation(f"{s.name}.{m.name} ({variant}): the awaited client method returned a {o['extra_await']} that has to be awaited "
+                              f"again, not the reply", case, "stubs.async_stream_unary_returns_call")
             resv = o["result"]
             if m.output_type == U.EMPTY and not m.server_streaming:
                 if resv.get("kind") != "none":
@@ -572,20 +586,25 @@ class ApiRun:
                           + (f"raised {o['error']['exception']}: {o['error']['message'][:120]}" if not o["ok"] else f"calls {[c['path'] for c in o['calls']]}")
                           + f" instead of one call to {path}", case, sig)
             return
-        got = self.dyn.parse(fq, o["calls"][0]["requests"][0])
+        got = type(sent[0])()
+        got.ParseFromString(base64.b64decode(o["calls"][0]["requests"][0]))
         if got != sent[0]:
             ctx.violation(f"{s.name}.{mname} ({variant}): payload differs from the caller's request", case)
 
-    def result_term(self, o):
+    def result_term(self, o, out_fqn):
+        """the returned value in model terms; message bytes are re-encoded canonically (map order is not significant)"""
         if not o["ok"]:
             return None
         r = o["result"]
-        if r.get("kind") == "none":
+
+        def canon(b):
+            return hb(U.b64(self.dyn.parse(out_fqn, b)))
+        if r.get("kind") in ("none", "ignored"):
             return "RetNone"
         if r.get("kind") == "msg":
-            return f"(RetOne {coq.s(r['b64'])})"
+            return f"(RetOne {coq.s(canon(r['b64']))})"
         if r.get("kind") == "stream" and all(x.get("kind") == "msg" for x in r["items"]):
-            return f"(RetStream {coq.slist([x['b64'] for x in r['items']])})"
+            return f"(RetStream {coq.slist([canon(x['b64']) for x in r['items']])})"
         if r.get("kind") == "other":
             return "RetOther"
         return None
@@ -597,9 +616,11 @@ class ApiRun:
         rq = m.input_type
         cross = self.idx.package_of(rq) != fp.package
         name = f"c03blk_{self.stag}_{i}_{j}"
+        sch = f"c03sch_{self.stag}"
+        if not any(d.startswith(f"Definition {sch} ") for d in self.defs):
+            roots = [mm.input_type for _, ss in self.svcs for mm in ss.method if not mm.client_streaming]
+            self.defs.append(f"Definition {sch} : schema := {A.schema_term(self.idx, roots)}.")
         if not any(d.startswith(f"Definition {name} ") for d in self.defs):
-            sch = f"c03sch_{self.stag}_{i}_{j}"
-            self.defs.append(f"Definition {sch} : schema := {A.schema_term(self.idx, [rq])}.")
             self.defs.append(
                 f"Definition {name} (v : variant) : option block := match assoc {coq.s(rq)} {sch} with "
                 f"Some m => match fields_mapping {sch} m {coq.b(cross)} {coq.slist(U.Index.signatures(m))} with "
